@@ -172,6 +172,12 @@ void fast_binary_dilate_erode_2d(numpy::aligned_array<bool> res, const numpy::al
     const numpy::index_type Cy = By/2;
     const numpy::index_type Cx = Bx/2;
 
+    if (!By || !Bx) {
+        // an element without entries has no centre to look at: the neighbourhood is empty
+        std::fill_n(res.data(), N, is_erosion);
+        return;
+    }
+
     // Offsets are applied exactly as in the generic (filter_iterator based)
     // code path: coordinates falling outside the image are clamped to the
     // nearest border pixel; erosion gathers from the (clamped) neighbour,
